@@ -252,6 +252,9 @@ def gen_model(rng, foreign=True):
         members = rng.sample(names, rng.randint(2, min(3, len(names))))
         nm = rng.randint(1, len(members) - 1)
         gname = ["Features", "Bundle"][gi] + "Group"
+        if rng.random() < 0.25:
+            # a group whose own name ends like one of the generated item names
+            gname = ["Data", "Device"][gi] + "Container"
         m.groups[gname] = (members[:nm], members[nm:])
         has_own = any(x.recv == "own" for t in members for x in m.traits[t].methods)
         conts = ["Box"] + ([] if has_own else ["Mut"])
@@ -815,6 +818,12 @@ def gen_model_cpp(rng):
             me.args = [(("struct CSliceRef_CSliceRef_u8", n, "slice2") if (k == "slice" and rng.random() < 0.5) else (ty, n, k)) for (ty, n, k) in me.args]
             # .. and with a comma behind the inner template (a two-parameter user template over a slice)
             me.args = [(("struct Duo_CSliceRef_u8_u32", n, "duo") if (k == "pair" and rng.random() < 0.5) else (ty, n, k)) for (ty, n, k) in me.args]
+    # consuming methods that return the object itself (`fn with(self, ..) -> Self`): the container
+    # moves through the entry into the returned object
+    for t in m.traits.values():
+        for me in t.methods:
+            if me.ret[1] == "self" and rng.random() < 0.5:
+                me.recv = "own"
     m.cpp_maybe_uninit = rng.random() < 0.85
     m.config = {k: v for k, v in m.config.items() if k != "function_prefix"}   # (C only)
     return m
@@ -909,7 +918,11 @@ def cpp_driver(model, out_text):
                 ret = f"Cont{ii}" if me.ret[1] == "self" else cpp_type(model, me.ret[0])
                 checks = " && ".join([a_check(ty, k, n, j) for j, (ty, n, k) in enumerate(me.args)] or ["1"])
                 body = [f"static {ret} mock_{ii}_{t}_{me.name}({cont_arg}{args}) {{", f"    ev(EV_SLOT, {sid});"]
-                if me.recv == "own":
+                if me.recv == "own" and me.ret[1] == "self":
+                    # the consumed container lives on in the returned object: nothing is released here
+                    inst_ptr = {"Box": "cont.instance.instance", "Mut": "cont.instance", "Ref": "cont.instance"}[inst.cont]
+                    body.append(f"    g_inst_ok = ((const void *){inst_ptr} == (const void *)&g_inst_marker); g_cont = 0;")
+                elif me.recv == "own":
                     inst_ptr = {"Box": "cont.instance.instance", "Mut": "cont.instance", "Ref": "cont.instance"}[inst.cont]
                     body.append(f"    g_inst_ok = ((const void *){inst_ptr} == (const void *)&g_inst_marker); g_cont = 0;")
                     if inst.cont == "Box":
@@ -919,7 +932,9 @@ def cpp_driver(model, out_text):
                 else:
                     body.append("    g_cont = (const void *)cont; g_inst_ok = 1;")
                 body.append(f"    g_args_ok = ({checks});")
-                if me.ret[1] == "self":
+                if me.ret[1] == "self" and me.recv == "own":
+                    body.append("    return cont;")
+                elif me.ret[1] == "self":
                     body.append(f"    Cont{ii} r = *cont; return r;")
                 elif me.ret[1] == "scalar":
                     body.append(f"    return {ARGV[me.ret[0]](sid % 200)};")
@@ -972,7 +987,7 @@ def cpp_driver(model, out_text):
                 if own:
                     # the moved-from object goes out of scope before the events are counted: its
                     # destructor must find nothing left to release
-                    L.append("        int ret_ok_ = 1;")
+                    L.append("        int ret_ok_ = 1, vt_ok_ = 1;")
                     L.append("        {")
                 L.append(f"        Obj{ii} o; build_{ii}(o);")
                 L.append("        RESET();")
@@ -986,6 +1001,20 @@ def cpp_driver(model, out_text):
                 elif me.ret[1] == "void":
                     L.append(f"        {call};")
                     L.append(f'        report("CALL", {ii}, "{t}", "{me.name}", "{wname}", {want}, {want_cont}, 1, 1);')
+                elif me.ret[1] == "self" and own:
+                    # the returned object is used up (destructed) first, then the moved-from source
+                    # goes out of scope: instance and context are released once over all of it
+                    if inst.kind == "obj":
+                        vt = f"(r.vtbl == &vt_{ii}_{traits[0]})"
+                    else:
+                        vt = "(" + " && ".join(f"r.vtbl_{x.lower()} == &vt_{ii}_{x}" for x in traits) + ")"
+                    inst_ptr = {"Box": "r.container.instance.instance", "Mut": "r.container.instance", "Ref": "r.container.instance"}[inst.cont]
+                    L.append("        {")
+                    L.append(f"        Obj{ii} r = {call};")
+                    L.append(f"        vt_ok_ = {vt}; ret_ok_ = ((const void *){inst_ptr} == (const void *)&g_inst_marker);")
+                    L.append("        }")
+                    L.append("        }")
+                    L.append(f'        report("CALL", {ii}, "{t}", "{me.name}", "{wname}", {want}, {want_cont}, ret_ok_, vt_ok_);')
                 elif me.ret[1] == "self":
                     L.append(f"        Obj{ii} r = {call};")
                     if inst.kind == "obj":
